@@ -143,3 +143,45 @@ void lemma_F_H_badinput(void)
   VCANARY("F_H bad input end");
 }
 #endif
+
+#ifdef LEMMA_GEOMETRY
+/* geometry, as congruences over unknown sin/cos/sqrt/pow: the d-spacing is the triclinic reciprocal-metric expression
+ *   d = (V / abc) / sqrt( (h sin(al)/a)^2 + (k sin(be)/b)^2 + (l sin(ga)/c)^2
+ *                         + 2hk (cos al cos be - cos ga)/ab + 2hl (cos al cos ga - cos be)/ac + 2kl (cos be cos ga - cos al)/bc )
+ * with V the stored cell volume, and the cell volume is abc sqrt(1 - cos^2 al - cos^2 be - cos^2 ga + 2 cos al cos be cos ga).
+ * What is NOT decided: that this expression is invariant under inversion, scales as 1/n, etc. (real algebra).          */
+double pow(double, double); double sqrt(double);
+#define SD(x) sin((x) * DEGRAD)
+#define CD(x) cos((x) * DEGRAD)
+void lemma_dSpacing(void)
+{
+  Crystal_Struct c; ND_INT(h); ND_INT(k); ND_INT(l); ND_ERRSLOT(error);
+  double r, e;
+  GHOST_RESET();
+  r = Crystal_dSpacing(&c, h, k, l, error);
+  if (h == 0 && k == 0 && l == 0) { VASSERT(FAILS(r, error), "Crystal_dSpacing: the (0,0,0) triple is an error"); }
+  else {
+    e = (c.volume / (c.a * c.b * c.c)) * sqrt(1 / (
+        pow(h * SD(c.alpha) / c.a, 2) + pow(k * SD(c.beta) / c.b, 2) + pow(l * SD(c.gamma) / c.c, 2) +
+        2.0 * h * k * (CD(c.alpha) * CD(c.beta) - CD(c.gamma)) / (c.a * c.b) +
+        2.0 * h * l * (CD(c.alpha) * CD(c.gamma) - CD(c.beta)) / (c.a * c.c) +
+        2.0 * k * l * (CD(c.beta) * CD(c.gamma) - CD(c.alpha)) / (c.b * c.c)));
+    VCANARY("dSpacing defined");
+    VASSERT(SAME(r, e) && NO_ERROR(error), "Crystal_dSpacing = the reciprocal-metric expression of the cell (triclinic formula)");
+  }
+  { xrl_error *e2 = NULL; g_watch = &e2; GHOST_RESET();
+    VASSERT(Crystal_dSpacing(NULL, h, k, l, &e2) == 0.0 && e2 != NULL && g_fail == 1, "Crystal_dSpacing: a NULL crystal is an error"); }
+}
+void lemma_UnitCellVolume(void)
+{
+  Crystal_Struct c; ND_ERRSLOT(error);
+  double r, e;
+  GHOST_RESET();
+  r = Crystal_UnitCellVolume(&c, error);
+  e = c.a * c.b * c.c * sqrt((1 - pow(CD(c.alpha), 2) - pow(CD(c.beta), 2) - pow(CD(c.gamma), 2)) + 2 * CD(c.alpha) * CD(c.beta) * CD(c.gamma));
+  VCANARY("volume defined");
+  VASSERT(SAME(r, e) && NO_ERROR(error), "Crystal_UnitCellVolume = abc sqrt(1 - cos^2 alpha - cos^2 beta - cos^2 gamma + 2 cos alpha cos beta cos gamma)");
+  { xrl_error *e2 = NULL; g_watch = &e2; GHOST_RESET();
+    VASSERT(Crystal_UnitCellVolume(NULL, &e2) == 0.0 && e2 != NULL && g_fail == 1, "Crystal_UnitCellVolume: a NULL crystal is an error"); }
+}
+#endif
